@@ -33,6 +33,13 @@ Theorem C12_dependencies_are_the_arguments :
   forall R t a, name_of R t = Ok a -> incl (refs a) (eids R (push t)).
 Proof. exact name_refs_incl. Qed.
 
+(* the text the model prints for Option / Result / Vec / HashMap / Range around placeholder arguments is what the format
+   literals of the impls in ts-rs/src/lib.rs produce (literals read from the source on every run) *)
+Theorem C12_container_formats_from_source :
+  forallb lib_format_row_ok lib_formats = true /\ (9 <= length lib_formats)%nat.
+Proof. exact lib_formats_ok. Qed.
+
+Print Assumptions C12_container_formats_from_source.
 Print Assumptions C12_primitive_rows_match_serde.
 Print Assumptions C12_wrappers_are_the_transparent_ones.
 Print Assumptions C12_shadows_defer_to_the_right_impl.
